@@ -121,6 +121,8 @@ for _n in range(4):
 for _n in (4, 5):
   K("O13.1k.%d" % _n, ["C13", "C05"], "vm", "c13_array_bounded_%d" % _n, level="bounded", tier="thorough", bound="arrays of length %d, every index in the integer range, symbolic immediate elements" % _n, needs_fmt_stub=True,
   functions=["index_get_array", "index_set_array"], desc="thorough tier: the bounded twin of O13.1 at a larger length")
+V("O13.2", ["C13", "C14", "C05"], "c13_strings", expect_verified=3, functions=["index_get_string", "index_set_string", "call_length"],
+  desc="verbatim bodies over texts of every length and content (a text = its sequence of characters; chars().count(), chars().nth(), len() [bytes: 1..4 per character], to_string and the char_indices/replace_range expression under their std-documented contracts): the index counts CHARACTERS, negative indices count from the back; in bounds: exactly that character is read (a new one-character text) / replaced by the value's text, everything else unchanged; out of bounds: IndexError, non-text value: TypeError, text unchanged; NO unwrap() can meet a None (no panic for any text and any index, non-ASCII included); lengte() of a text is its number of characters")
 K("O13.cast", ["C13"], "vm", "c13_cast_contracts", functions=["index_set_array", "index_get_array"],
   desc="the `as usize` / `as isize` casts replaced by helpers in unit c13_arrays (R3) have the helper contract, for all values")
 K("O13.3a", ["C13", "C05"], "vm", "c13_index_get_dispatch", needs_fmt_stub=True, functions=["index_get"],
